@@ -275,8 +275,14 @@ class GriffeLoader:
                 module_path = export.canonical_path.rsplit(".", 1)[0]  # Remove trailing `.__all__`.
                 try:
                     next_module = self.modules_collection.get_member(module_path)
-                except KeyError:
+                    # The path can lead to an alias (of a module), or go through one.
+                    if next_module.is_alias:
+                        next_module = next_module.final_target  # type: ignore[union-attr]
+                except (KeyError, AliasResolutionError, CyclicAliasError):
                     logger.debug("Cannot expand '%s', try pre-loading corresponding package", export.canonical_path)
+                    continue
+                if not next_module.is_module:
+                    logger.debug("Cannot expand '%s': not a module", export.canonical_path)
                     continue
                 if next_module.path not in seen:
                     self.expand_exports(next_module, seen)
@@ -351,16 +357,19 @@ class GriffeLoader:
                     )
                     continue
 
-                # Recurse into this module, expanding wildcards there before collecting everything.
-                if target.path not in seen:
-                    try:
+                # Recurse into this module (the one an alias of a module points at),
+                # expanding wildcards there before collecting everything.
+                try:
+                    if target.is_alias:
+                        target = target.final_target  # type: ignore[union-attr]
+                    if target.path not in seen:
                         self.expand_wildcards(target, external=external, seen=seen)
-                    except (AliasResolutionError, CyclicAliasError) as error:
-                        logger.debug("Could not expand wildcard import %s in %s: %s", member.name, obj.path, error)
-                        continue
-
-                # Collect every imported object.
-                expanded.extend(self._expand_wildcard(member))  # type: ignore[arg-type]
+                    # Collect every imported object.
+                    imported = self._expand_wildcard(member, target)  # type: ignore[arg-type]
+                except (AliasResolutionError, CyclicAliasError) as error:
+                    logger.debug("Could not expand wildcard import %s in %s: %s", member.name, obj.path, error)
+                    continue
+                expanded.extend(imported)
                 to_remove.append(member.name)
 
         # Then we remove the members representing wildcard imports.
@@ -712,8 +721,11 @@ class GriffeLoader:
                     parent_module.filepath.append(module_filepath)  # type: ignore[union-attr]
         return parent_module
 
-    def _expand_wildcard(self, wildcard_obj: Alias) -> list[tuple[Object | Alias, int | None, int | None]]:
-        module = self.modules_collection.get_member(wildcard_obj.wildcard)  # type: ignore[arg-type]
+    def _expand_wildcard(
+        self,
+        wildcard_obj: Alias,
+        module: Object | Alias,
+    ) -> list[tuple[Object | Alias, int | None, int | None]]:
         return [
             (imported_member, wildcard_obj.alias_lineno, wildcard_obj.alias_endlineno)
             for imported_member in module.members.values()
